@@ -118,6 +118,11 @@ class Extractor:
             return flat(('seq', [self.comb(x) for x in a]))
         if cal == 'nom::sequence::preceded':
             return flat(('seq', [self.comb(x) for x in a]))
+        if cal in ('nom::sequence::terminated', 'nom::sequence::pair', 'nom::sequence::tuple', 'nom::sequence::separated_pair'):
+            els = a[0]['elems'] if (cal.endswith('::tuple') and a and a[0]['k'] == 'Tup') else a
+            return flat(('seq', [self.comb(x) for x in els]))
+        if cal == 'nom::combinator::peek':
+            return ('peek', self.comb(a[0]))          # zero-width lookahead: must match here, consumes nothing
         if cal in ('nom::multi::many0', 'nom::multi::fold_many0'):
             return ('star', self.comb(a[0]))
         if cal == 'nom::multi::many1':
@@ -174,7 +179,7 @@ def flat(g):
             else:
                 out.append(x)
         return ('seq', out) if len(out) != 1 else out[0]
-    if g[0] in ('star', 'plus', 'opt'):
+    if g[0] in ('star', 'plus', 'opt', 'peek'):
         return (g[0], flat(g[1]))
     if g[0] == 'check':
         return ('check', flat(g[1]), g[2])
@@ -202,6 +207,8 @@ def show(g):
         return '(' + show(g[1]) + ')' + {'star': '*', 'plus': '+', 'opt': '?'}[k]
     if k == 'check':
         return '{' + show(g[1]) + '}!' + g[2]
+    if k == 'peek':
+        return '&(' + show(g[1]) + ')'
     return '??' + str(g[1])
 
 def first_byte(g, rules, depth=0):
@@ -293,7 +300,7 @@ def rule_graph(rules, name_of):
         elif x[0] in ('seq', 'alt'):
             for y in x[1]:
                 refs(y, out)
-        elif x[0] in ('star', 'plus', 'opt', 'check'):
+        elif x[0] in ('star', 'plus', 'opt', 'check', 'peek'):
             refs(x[1], out)
     for n, body in rules.items():
         out = set()
@@ -355,6 +362,10 @@ def language(facts, g, lookup, rec, classmap, depth=0):
         return {(('check', '', frozenset(language(facts, g[1], lookup, rec, classmap, depth + 1))),)}
     if k == 'opt':
         return {()} | language(facts, g[1], lookup, rec, classmap, depth + 1)
+    if k == 'peek':
+        # a lookahead only restricts when an optional part is taken; the set of sequences is compared without it (what it
+        # costs or saves is decided by pegcommit on the PEG reading)
+        return {()}
     if k == 'alt':
         out = set()
         for x in g[1]:
